@@ -128,6 +128,9 @@ def oracle(case: dict, real: list[str]) -> str | None:
         return jraw.oracle(case, real)
     if "crashed" in real:
         return "RuntimeError escaped from the consumer (write buffer exhausted)"
+    why = sd.mutated(real)
+    if why:
+        return why
     spec = case["spec"]
     sep = sers.separator(spec)
     lim = sers.limit_of(spec)
@@ -240,6 +243,38 @@ def _payload(rng, spec: dict, n: int, bad: bool) -> bytes:
     return fill * n if not bad else b"\xff" + fill * (n - 1)
 
 
+# separators of 1 to 4 bytes: first byte repeated (7c7c 616162 2d2d3e 6161), first byte = last byte (616261 0d0a0d), all bytes
+# distinct (0d0a 3c7c3e "<|>" 0d0a2e 61626364 3c2d2d3e... ): with distinct bytes a terminator cut after its last-but-one byte
+# leaves a buffer whose last byte is neither the separator's first byte nor a repetition of the byte before
+SEPS = ["0a", "0d0a", "7c7c", "616162", "2d2d3e", "6161", "3c7c3e", "3c7c3e", "616261", "0d0a2e", "61626364", "0d0a0d0a", "0d0a0d"]
+
+
+def _terminator_cuts():
+    """deterministic family: three frames  first | good | end ; `first` is valid, undecodable, in the limit band or oversized;
+    ONE cut at every offset of the terminator of `first` (t=1) or of `good` (t=2: the terminator that follows a possible size
+    rejection), the rest in one read or dripped byte by byte; both receive paths; separators of 1..4 bytes; payloads that end
+    with a proper prefix of the separator where that is a valid payload"""
+    for sephex in ("0a", "0d0a", "7c7c", "3c7c3e", "616261", "2d2d3e", "0d0a2e", "61626364", "0d0a0d0a"):
+        sep = bytes.fromhex(sephex)
+        fill = next(bytes([c]) for c in b"bxyz" if c not in sep)
+        lim = 10
+        for kind1 in ("ok", "bad", "band", "big"):
+            n = {"ok": 3, "bad": 3, "band": lim, "big": lim + len(sep) + 3}[kind1]
+            tails = [b""] + [sep[:i] for i in range(1, len(sep))]
+            for tl in tails:
+                p1 = (b"\xff" if kind1 == "bad" else b"") + fill * (n - len(tl) - (1 if kind1 == "bad" else 0)) + tl
+                if (p1 + sep).find(sep) != len(p1) or len(p1) != n:
+                    continue
+                good = fill * 2 + tl if (fill * 2 + tl + sep).find(sep) == 2 + len(tl) and 2 + len(tl) + len(sep) < lim else fill * 2
+                frames = [{"kind": kind1, "payload": p1.hex()}, {"kind": "ok", "payload": good.hex()}, {"kind": "ok", "payload": (fill * 3).hex()}]
+                for t, base in ((1, len(p1)), (2, len(p1) + len(sep) + len(good))):
+                    for j in range(0, len(sep) + 1):
+                        for tail in ([1000], [1]):
+                            for path in ("copy", "buffered"):
+                                yield {"spec": {"k": "autosep", "sep": sephex, "limit": lim, "check": True}, "path": path,
+                                       "frames": frames, "cuts": [base + j] + tail if base + j else tail, "hint": 4}
+
+
 def _gen_case(rng, tier: str) -> dict:
     k = rng.choice(["line", "line", "autosep", "autosep"])
     lim = rng.choice([6, 8, 10, 12, 16, 32])
@@ -247,7 +282,11 @@ def _gen_case(rng, tier: str) -> dict:
         spec = {"k": "line", "newline": rng.choice(["LF", "CR", "CRLF", "CRLF"]), "keep_end": rng.random() < 0.3,
                 "encoding": rng.choice(["ascii", "utf-8"]), "limit": lim}
     else:
-        spec = {"k": "autosep", "sep": rng.choice(["0a", "0d0a", "7c7c", "616162", "2d2d3e", "6161"]), "limit": lim, "check": True}
+        spec = {"k": "autosep", "sep": rng.choice(SEPS), "limit": lim, "check": True}
+        if rng.random() < 0.25:
+            spec["hold"] = rng.choice(["arg", "text"])
+    if rng.random() < 0.25:
+        spec["debug"] = True
     sep = sers.separator(spec)
     path = rng.choice(["copy", "buffered"])
     frames = []
@@ -298,6 +337,7 @@ def corpus() -> list[dict]:
 
 
 def generate(rng, tier: str, boost: int):
+    yield from _terminator_cuts()
     n = (3000 if tier == "quick" else 80000) * boost
     for _ in range(n):
         yield _gen_case(rng, tier)
